@@ -8,6 +8,17 @@ Implementation under test (real code, in-process):
      components over in the iteration order of a set (it changes with the string hash seed of the process), so the
      same call is repeated for the explicit permutations case['orders'] (always the topological order and its reverse:
      every pair of components is processed in both relative orders); the result must be the same for every order
+  D. one configuration object with a HISTORY (case['history']): the document is written to a package directory and
+     loaded (ExperimentPackage.packageFromLocation, or ExperimentConfigurationFactory.configurationForExperiment
+     with the first set of user variable files), then the SAME configuration object is re-parametrised with other
+     user variable files that change the variables the replica counts / aggregate flags are given through
+     (WorkflowGraph.graphFromPackage(package, primitive=False, variable_files=...) or conf.parametrize(...), primitive
+     steps in between), optionally instantiated (Experiment.experimentFromPackage) and read back
+     (WorkflowGraph.graphFromExperimentInstanceDirectory): after every step the expansion must be the one of the
+     document under the user variables of THAT step
+  E. a sample of the cases is run again at the end of the run, in another order, after all the other cases (and
+     once more with logging enabled at DEBUG level): the implementation must answer as it did the first time
+Components may define `replica` themselves (also the stage / the global scope / the user variables): copy i must see i.
 Replica counts and aggregate flags may be given through %(var)s with the same variable name defined at several scopes
 (global, stage, the component itself, sibling components): the oracle resolves each in the component's OWN scope chain.
 Model: lean/St4sd/Model/ReplVars.lean (resolution of the attributes per component) + lean/St4sd/Model/Repl.lean
@@ -18,7 +29,12 @@ from __future__ import annotations
 
 import copy
 import itertools
+import json
 import logging
+import os
+import re
+import shutil
+import tempfile
 
 METHODS = ['ref', 'copy', 'link', 'copyout', 'extract', 'output']
 # names designed to overlap: suffix/prefix/infix pairs, trailing digits, names that look like parts of a reference
@@ -196,12 +212,38 @@ def model_request(case):
             'svars': sorted([int(k), _pairs(v)] for k, v in (case.get('svars') or {}).items())}
 
 
+def model_history_request(case):
+    """the same history on the model of the configuration object (ReplConf.construct / parametrize)"""
+    req = model_request(case)
+    req['op'] = 'history'
+    steps = []
+    for _label, files, prim in history_steps(case):
+        uv = layer_files(files)
+        steps.append({'g': _pairs(uv['global']), 'svars': sorted([int(k), _pairs(v)] for k, v in uv['stages'].items()),
+                      'primitive': prim})
+    req['steps'] = steps
+    return req
+
+
 # ----------------------------------------------------------------------------------------
 # implementation
 # ----------------------------------------------------------------------------------------
 
 def classify_exc(exc):
     msg = str(exc)
+    seen, todo = set(), [exc]
+    while todo and len(seen) < 30:          # the loader wraps the error of replicate() a few levels deep
+        e = todo.pop()
+        if id(e) in seen or not isinstance(e, BaseException):
+            continue
+        seen.add(id(e))
+        msg += ' ' + str(e)
+        todo.append(getattr(e, 'underlyingError', None))
+        u = getattr(e, 'underlyingErrors', None)
+        try:
+            todo.extend(list(u() if callable(u) else (u or [])))
+        except Exception:  # noqa
+            pass
     if 'not consistent' in msg:
         return 'inconsistent'
     if 'exists multiple times' in msg:
@@ -217,9 +259,24 @@ def _view(components):
         comps.append({'id': cid(x.get('stage', 0), x['name']), 'stage': x.get('stage', 0), 'name': x['name'],
                       'refs': list(x.get('references', [])),
                       'args': x.get('command', {}).get('arguments', ''),
-                      'replica': x.get('variables', {}).get('replica'),
-                      'replicate': x.get('workflowAttributes', {}).get('replicate')})
+                      'replica': (x.get('variables') or {}).get('replica'),
+                      'vars': {str(k): str(v) for k, v in (x.get('variables') or {}).items()},
+                      'replicate': (x.get('workflowAttributes') or {}).get('replicate')})
     return comps
+
+
+def _graph_view(g):
+    """what a user of the graph sees: nodes, edges and per node the resolved `replica` variable / command line"""
+    res = {'nodes': sorted(g.graph.nodes), 'edges': sorted([list(e) for e in g.graph.edges]), 'resolved': {}}
+    for n in res['nodes']:
+        try:
+            conf = g.configurationForNode(n)
+            res['resolved'][n] = {'replica': None if (conf.get('variables') or {}).get('replica') is None
+                                  else str(conf['variables']['replica']),
+                                  'args': str((conf.get('command') or {}).get('arguments', ''))}
+        except Exception as exc:  # noqa
+            res['resolved'][n] = {'error': classify_exc(exc)}
+    return res
 
 
 def case_orders(case):
@@ -268,13 +325,154 @@ def impl_run(case):
         out['runs'] = runs
         try:
             g = G.WorkflowGraph.graphFromFlowIR(copy.deepcopy(doc), {}, primitive=False)
-            out['nodes'] = sorted(g.graph.nodes)
-            out['edges'] = sorted([list(e) for e in g.graph.edges])
+            out.update(_graph_view(g))
         except Exception as exc:  # noqa
             out['graph_error'] = classify_exc(exc)
+        if case.get('history'):
+            out['history'] = impl_history(case, doc)
     finally:
         logging.disable(prev)
     return out
+
+
+# ----------------------------------------------------------------------------------------
+# D: one configuration object, re-parametrised
+# ----------------------------------------------------------------------------------------
+
+def layer_files(files):
+    """user variable files layered in the order given (the last one wins)"""
+    g, st = {}, {}
+    for f in files or []:
+        g.update(f.get('global') or {})
+        for k, d in (f.get('stages') or {}).items():
+            st.setdefault(str(k), {}).update(d or {})
+    return {'global': g, 'stages': st}
+
+
+def with_user_vars(case, files):
+    """The workflow a parametrisation with the user variable `files` stands for: the user variables (global section,
+    then the section of the stage) are layered over the variables the package gives every stage; the variables a
+    component defines for itself stay on top."""
+    uv = layer_files(files)
+    c2 = copy.deepcopy(case)
+    c2.pop('history', None)
+    for st in sorted({c['stage'] for c in c2['comps']}):
+        inj = dict(uv['global'])
+        inj.update(uv['stages'].get(str(st), {}))
+        if inj:
+            c2.setdefault('svars', {}).setdefault(str(st), {}).update(inj)
+    return c2
+
+
+def history_steps(case):
+    """[(label, user variable files, primitive)] of the steps of case['history'], the derived ones included"""
+    h = case['history']
+    steps = [('step%d' % k, s.get('files') or [], bool(s.get('primitive'))) for k, s in enumerate(h['steps'])]
+    if h.get('instantiate'):
+        last = steps[-1][1]
+        steps.append(('instantiate', last, False))
+        steps.append(('reload-instance', last, False))
+    return steps
+
+
+def _conf_view(conf, g):
+    concrete = conf.get_flowir_concrete(return_copy=False)
+    res = {'comps': _view(concrete.get_components())}
+    res.update(_graph_view(g))
+    return res
+
+
+def impl_history(case, doc):
+    """runs the history on ONE configuration object; one entry per step: None (primitive) | {'error'} | view"""
+    import yaml
+    F, G = _mods()
+    import experiment.model.storage as ST
+    import experiment.model.conf as CF
+    import experiment.model.data as DT
+    h = case['history']
+    root = tempfile.mkdtemp(prefix='c03-hist-')
+    res = []
+    cwd = os.getcwd()
+    try:
+        pkg = os.path.join(root, 'wf.package')
+        for d in ('conf/x', 'data', 'bin'):
+            os.makedirs(os.path.join(pkg, d))
+        with open(os.path.join(pkg, 'conf', 'flowir_package.yaml'), 'w') as fh:
+            yaml.safe_dump(doc, fh, sort_keys=False)
+        os.chdir(root)
+
+        def write_files(k, files):
+            paths = []
+            for j, f in enumerate(files or []):
+                d = {}
+                if f.get('global'):
+                    d['global'] = dict(f['global'])
+                if f.get('stages'):
+                    d['stages'] = {int(s): dict(v) for s, v in f['stages'].items()}
+                pth = os.path.join(root, 'vars-%d-%d.yaml' % (k, j))
+                with open(pth, 'w') as fh:
+                    yaml.safe_dump(d or {'global': {}}, fh)
+                paths.append(pth)
+            return paths
+
+        package, conf, paths = None, None, []
+        for k, st in enumerate(h['steps']):
+            paths = write_files(k, st.get('files'))
+            prim = bool(st.get('primitive'))
+            try:
+                g = None
+                if h['entry'] == 'package':
+                    if k == 0:
+                        package = ST.ExperimentPackage.packageFromLocation(pkg, primitive=prim, variable_files=paths)
+                        conf = package.configuration
+                    else:
+                        g = G.WorkflowGraph.graphFromPackage(
+                            package, primitive=prim, variable_files=paths, createInstanceConfiguration=False,
+                            updateInstanceConfiguration=False)
+                        conf = g.configuration
+                else:
+                    if k == 0:
+                        conf = CF.ExperimentConfigurationFactory.configurationForExperiment(
+                            pkg, createInstanceFiles=False, updateInstanceFiles=False, primitive=prim,
+                            variable_files=paths)
+                    else:
+                        conf.parametrize(platform=None, variable_files=paths, systemvars=None, is_instance=False,
+                                         createInstanceFiles=False, primitive=prim, updateInstanceFiles=False)
+                if prim:
+                    res.append(None)
+                    continue
+                if g is None:
+                    g = G.WorkflowGraph(conf, platform=conf.platform_name, primitive=False)
+                res.append(_conf_view(conf, g))
+            except Exception as exc:  # noqa
+                res.append({'error': classify_exc(exc)})
+                if conf is None:
+                    # the constructor raised: there is no object to parametrise again
+                    res.extend({'skipped': 'constructor-raised'} for _ in h['steps'][k + 1:])
+                    break
+        if h.get('instantiate') and len(res) == len(h['steps']):
+            exp = None
+            try:
+                if package is None:
+                    package = ST.ExperimentPackage.packageFromLocation(pkg)
+                exp = DT.Experiment.experimentFromPackage(package, location=root, variable_files=paths or None)
+                res.append(_conf_view(exp.configuration, exp.experimentGraph))
+            except Exception as exc:  # noqa
+                res.append({'error': classify_exc(exc)})
+            try:
+                if exp is None:
+                    res.append({'skipped': 'no-instance'})
+                    return res
+                g = G.WorkflowGraph.graphFromExperimentInstanceDirectory(
+                    exp.instanceDirectory, primitive=False, createInstanceConfiguration=False,
+                    updateInstanceConfiguration=False)
+                res.append(_conf_view(g.configuration, g))
+            except Exception as exc:  # noqa
+                res.append({'error': classify_exc(exc)})
+    finally:
+        os.chdir(cwd)
+        shutil.rmtree(root, ignore_errors=True)
+    return res
 
 
 def parse_ref(ref, stage):
@@ -337,7 +535,9 @@ def expected(case):
                     else:
                         refs.append(['comp', r['stage'], r['name'], r.get('file'), r['method']])
                 res.append({'id': cid(c['stage'], '%s%d' % (c['name'], i)), 'stage': c['stage'], 'refs': refs,
-                            'replica': i, 'replicate': n, 'of': cid(*k)})
+                            'replica': i, 'replicate': n, 'of': cid(*k),
+                            'vars': dict({str(a): str(b) for a, b in (c.get('vars') or {}).items()},
+                                         replica=str(i))})
         else:
             refs = []
             for r in c['refs']:
@@ -349,7 +549,7 @@ def expected(case):
                 else:
                     refs.append(['comp', r['stage'], r['name'], r.get('file'), r['method']])
             res.append({'id': cid(*k), 'stage': c['stage'], 'refs': refs, 'replica': None, 'replicate': None,
-                        'of': cid(*k)})
+                        'of': cid(*k), 'vars': {str(a): str(b) for a, b in (c.get('vars') or {}).items()}})
     nodes = [o['id'] for o in res]
     if len(set(nodes)) != len(nodes):
         return {'error': 'duplicate'}
@@ -378,15 +578,108 @@ def _check_components(exp, comps, where):
         for p in prs:
             if p[0] == 'unparsable' or (p[0] == 'comp' and cid(p[1], p[2]) not in ids):
                 fails.append(('dangling-reference', dict(where, component=k, reference=p)))
-        if g['replica'] != o['replica'] or (o['replica'] is not None and g['replicate'] != o['replicate']):
-            fails.append(('wrong-replica-variable', dict(where, component=k, expected=[o['replica'], o['replicate']],
+        # a copy knows its own index (variables.replica = i, whatever the component defines for `replica` itself);
+        # every other variable, and every variable of a component that is not a copy, is the component's own
+        want_replica = o['vars'].get('replica')
+        got_replica = None if g['replica'] is None else str(g['replica'])
+        if want_replica is not None and '%(' in want_replica and got_replica is not None:
+            # a value that refers to another variable may be handed back resolved (configuration object) or as
+            # written (FlowIR dictionary): not compared
+            got_replica = want_replica
+        if got_replica != want_replica or (o['replica'] is not None and g['replicate'] != o['replicate']):
+            fails.append(('wrong-replica-variable', dict(where, component=k, expected=[want_replica, o['replicate']],
                                                          got=[g['replica'], g['replicate']])))
+        nested = {a for a, b in o['vars'].items() if '%(' in b}
+        if 'vars' in g and {a: b for a, b in g['vars'].items() if a != 'replica' and a not in nested} != \
+                {a: b for a, b in o['vars'].items() if a != 'replica' and a not in nested}:
+            fails.append(('component-variables-changed', dict(where, component=k, expected=o['vars'], got=g['vars'])))
+    return fails
+
+
+REPLICA_TOKEN = re.compile(r'rep=(\S*)')
+
+
+def _check_resolved(case, exp, resolved, where):
+    """what a user of the graph sees of `replica`: in copy i the variable and every `rep=%(replica)s` of the command
+    line are i; a component that is not a copy sees the `replica` of its own scope chain (if any)"""
+    fails = []
+    byid = {cid(c['stage'], c['name']): c for c in case['comps']}
+    for o in exp['comps']:
+        r = (resolved or {}).get(o['id'])
+        if r is None:
+            continue
+        if 'error' in r:
+            fails.append(('configuration-of-node-raises', dict(where, component=o['id'], error=r['error'])))
+            continue
+        toks = REPLICA_TOKEN.findall(r['args'])
+        if o['replica'] is not None:
+            want = str(o['replica'])
+            if r['replica'] != want or any(t != want for t in toks):
+                fails.append(('copy-does-not-know-its-replica-index',
+                              dict(where, component=o['id'], expected=want, variable=r['replica'], arguments=r['args'])))
+        else:
+            v = chain_lookup(case, byid[o['of']], 'replica')
+            if v is not None and '%(' not in str(v) and (r['replica'] != str(v) or any(t != str(v) for t in toks)):
+                fails.append(('variable-of-unreplicated-component-changed',
+                              dict(where, component=o['id'], expected=str(v), variable=r['replica'],
+                                   arguments=r['args'])))
+    return fails
+
+
+def _check_view(case, exp, view, where):
+    """one loaded configuration + graph (a step of a history) against the expected expansion"""
+    fails = []
+    if 'error' in exp:
+        if 'error' not in view:
+            fails.append(('invalid-workflow-accepted' if exp['error'] != 'duplicate' else 'colliding-names-accepted',
+                          dict(where, expected=exp)))
+        return fails
+    if 'error' in view:
+        return [('loader-rejects-valid-workflow', dict(where, error=view['error']))]
+    fails.extend(_check_components(exp, view['comps'], where))
+    if view['nodes'] != exp['nodes']:
+        fails.append(('wrong-node-set', dict(where, expected=exp['nodes'], got=view['nodes'])))
+    if view['edges'] != exp['edges']:
+        fails.append(('wrong-edge-set', dict(where, expected=exp['edges'], got=view['edges'])))
+    fails.extend(_check_resolved(case, exp, view.get('resolved'), where))
+    return fails
+
+
+def oracle_history(case, out):
+    fails = []
+    hist = out.get('history') or []
+    steps = history_steps(case)
+    for k, (label, files, prim) in enumerate(steps):
+        if prim:
+            continue
+        where = {'path': 'history:%s' % case['history']['entry'], 'step': label,
+                 'user_variables': layer_files(files)}
+        if k < len(hist) and hist[k] is not None and 'skipped' in hist[k]:
+            continue
+        if k >= len(hist) or hist[k] is None:
+            fails.append(('history-step-not-observed', where))
+            continue
+        c2 = with_user_vars(case, files)
+        fails.extend(_check_view(c2, expected(c2), hist[k], where))
     return fails
 
 
 def oracle(case, out):
     """list of (slug, detail) — empty when the implementation's result is what the property requires"""
     exp = expected(case)
+    fails = []
+    if case.get('history'):
+        fails.extend(oracle_history(case, out))
+    fails.extend(_oracle_main(case, exp, out))
+    seen, uniq = set(), []
+    for w, d in fails:          # one failure per slug is enough for the verdict; keep the first of each
+        if w not in seen:
+            seen.add(w)
+            uniq.append((w, d))
+    return uniq
+
+
+def _oracle_main(case, exp, out):
     fails = []
     runs = [r for r in out.get('runs', []) if r.get('order') is not None]
     if 'error' in exp:
@@ -419,12 +712,8 @@ def oracle(case, out):
             fails.append(('wrong-node-set', {'expected': exp['nodes'], 'got': out['nodes']}))
         if out['edges'] != exp['edges']:
             fails.append(('wrong-edge-set', {'expected': exp['edges'], 'got': out['edges']}))
-    seen, uniq = set(), []
-    for w, d in fails:          # one failure per slug is enough for the verdict; keep the first of each
-        if w not in seen:
-            seen.add(w)
-            uniq.append((w, d))
-    return uniq
+        fails.extend(_check_resolved(case, exp, out.get('resolved'), {'path': 'WorkflowGraph.graphFromFlowIR'}))
+    return fails
 
 
 # ----------------------------------------------------------------------------------------
@@ -564,6 +853,107 @@ def assign_scopes(rng, case, p_var, p_sibling):
                         comps[j]['vars'][var] = _fmt_count(rng, rng.choice([1, 2, 3]))
 
 
+REPLICA_VALUES = [0, '0', 1, 7, '3', 'none', 2]
+
+
+def decorate_replica(rng, case, p_own=0.35):
+    """Variables called like the injected one: `replica` defined by components for themselves (inside and outside
+    the replicated region), by stages, globally; `rep=%(replica)s` on the command line of every component that can
+    resolve it (a member of the expected region, or `replica` in its scope chain)."""
+    exp = expected(case)
+    region = set() if 'error' in exp else {o['of'] for o in exp['comps'] if o['replica'] is not None}
+    count_vars = sorted({c['repl']['var'] for c in case['comps'] if (c.get('repl') or {}).get('how') == 'var'})
+    if rng.random() < 0.3:
+        case['gvars']['replica'] = rng.choice(REPLICA_VALUES)
+    for st in sorted({c['stage'] for c in case['comps']}):
+        if rng.random() < 0.25:
+            case['svars'].setdefault(str(st), {})['replica'] = rng.choice(REPLICA_VALUES)
+    for c in case['comps']:
+        k = cid(c['stage'], c['name'])
+        if rng.random() < p_own:
+            v = rng.choice(REPLICA_VALUES)
+            if k in region and count_vars and rng.random() < 0.3:
+                # what a component exported with dsl_component_blueprint() carries: replica: "%(numberOfX)s"
+                cv = rng.choice(count_vars)
+                if chain_lookup(case, c, cv) is not None:
+                    v = '%%(%s)s' % cv
+            c['vars']['replica'] = v
+        if (k in region or chain_lookup(case, c, 'replica') is not None) and rng.random() < 0.7:
+            c['args'] = (c['args'] + ' rep=%(replica)s').strip()
+            if rng.random() < 0.2:
+                c['args'] = 'rep=%(replica)s ' + c['args']
+
+
+def _history_values(rng, case, var):
+    """a value for `var` in a user variable file: another count for a count variable, another flag for a flag"""
+    is_flag = any(isinstance(c.get('agg'), dict) and c['agg']['var'] == var for c in case['comps'])
+    is_count = any((c.get('repl') or {}).get('how') == 'var' and c['repl']['var'] == var for c in case['comps'])
+    if var == 'replica':
+        return rng.choice([5, '9', 0])
+    if is_flag and not is_count:
+        return _fmt_flag(rng, rng.random() < 0.5)
+    n = rng.choice([1, 2, 3, 4, 5, 5, 6, 11]) if rng.random() < 0.9 else 12
+    return _fmt_count(rng, n)
+
+
+def gen_history(rng, case):
+    """Steps of one configuration object: [{'files': [user variable documents], 'primitive': bool}, ...].  The files
+    set the variables through which the counts / flags of the case are given (global section and sections of single
+    stages), a `replica` now and then, and names nobody reads."""
+    names = sorted({c['repl']['var'] for c in case['comps'] if (c.get('repl') or {}).get('how') == 'var'} |
+                   {c['agg']['var'] for c in case['comps'] if isinstance(c.get('agg'), dict)})
+    if not names:
+        return None
+    stages = sorted({c['stage'] for c in case['comps']})
+
+    def gen_file():
+        f = {}
+        for v in names:
+            r = rng.random()
+            if r < 0.65:
+                f.setdefault('global', {})[v] = _history_values(rng, case, v)
+            elif r < 0.8:
+                f.setdefault('stages', {}).setdefault(str(rng.choice(stages)), {})[v] = _history_values(rng, case, v)
+        if rng.random() < 0.15:
+            f.setdefault('global', {})['replica'] = _history_values(rng, case, 'replica')
+        if rng.random() < 0.15:
+            f.setdefault('global', {})['unused'] = 'x'
+        return f
+
+    entry = rng.choice(['package', 'package', 'conf'])
+    steps = []
+    for k in range(rng.choice([2, 3, 3, 4])):
+        files = [gen_file() for _ in range(rng.choice([0, 1, 1, 1, 2]))]
+        steps.append({'files': [f for f in files if f], 'primitive': rng.random() < 0.25})
+    if entry == 'package':
+        steps[0] = {'files': [], 'primitive': True} if rng.random() < 0.8 else dict(steps[0], primitive=True)
+    steps[-1]['primitive'] = False
+    h = {'entry': entry, 'steps': steps}
+    if entry == 'package' and rng.random() < 0.25:
+        h['instantiate'] = True
+    return h
+
+
+def gen_history_case(rng):
+    """a workflow whose counts (and some flags) come through global / stage variables + a history"""
+    for _ in range(20):
+        case = gen_case(rng, kind=rng.choice(['scopes', 'chain', 'plain', 'cross-stage']), p_var=0.95, p_sibling=0.3,
+                        p_own=0.15)
+        if 'error' in expected(case):
+            continue
+        h = gen_history(rng, case)
+        if h:
+            case['kind'] = 'history'
+            case['history'] = h
+            case['orders'] = case['orders'][:2]
+            if any('%(replica)s' in c['args'] for c in case['comps']):
+                # a step may turn a member of the region into an aggregator / a plain component: its command line
+                # must still resolve (to the global value) -- copies see their index nevertheless
+                case['gvars'].setdefault('replica', rng.choice(REPLICA_VALUES))
+            return case
+    return None
+
+
 def gen_orders(rng, n):
     """topological order, its reverse (=> every pair in both relative orders) and random shuffles"""
     orders = [list(range(n)), list(range(n - 1, -1, -1))]
@@ -575,7 +965,7 @@ def gen_orders(rng, n):
     return orders
 
 
-def gen_case(rng, kind=None):
+def gen_case(rng, kind=None, p_var=None, p_sibling=None, p_own=0.35):
     kind = kind or rng.choice(['overlap', 'overlap', 'overlap', 'chain', 'cross-stage', 'plain', 'inconsistent',
                                'scopes', 'scopes', 'scopes'])
     ncomp = rng.randint(2, 7) if kind != 'scopes' else rng.randint(3, 7)
@@ -630,10 +1020,14 @@ def gen_case(rng, kind=None):
     order = list(range(len(comps)))
     rng.shuffle(order)
     case = {'kind': kind, 'comps': comps, 'order': order, 'orders': gen_orders(rng, len(comps))}
-    if kind == 'scopes':
+    if p_var is not None:
+        assign_scopes(rng, case, p_var, p_sibling)
+    elif kind == 'scopes':
         assign_scopes(rng, case, 0.9, 0.6)
     else:
         assign_scopes(rng, case, 0.45, 0.35)
+    if rng.random() < 0.5:
+        decorate_replica(rng, case, p_own)
     return case
 
 
@@ -775,7 +1169,35 @@ def features(case):
     names = [c['name'] for c in case['comps']]
     if len(set(names)) < len(names):
         tags.append('equal-names-across-stages')
-    return tags, bool(copies) and rewired > 0
+    region_of = {o['of'] for o in copies}
+    if any('replica' in (c.get('vars') or {}) and cid(c['stage'], c['name']) in region_of for c in case['comps']):
+        tags.append('replicated-component-defines-replica-itself')
+    if any('replica' in (c.get('vars') or {}) and cid(c['stage'], c['name']) not in region_of for c in case['comps']):
+        tags.append('unreplicated-component-defines-replica')
+    if 'replica' in (case.get('gvars') or {}) or any('replica' in (v or {}) for v in (case.get('svars') or {}).values()):
+        tags.append('stage-or-global-scope-defines-replica')
+    if any('%(replica)s' in c['args'] for c in case['comps']):
+        tags.append('command-line-uses-replica')
+    nontrivial = bool(copies) and rewired > 0
+    if case.get('history'):
+        h = case['history']
+        tags.append('history:entry:' + h['entry'])
+        tags.append('history:steps:%d' % len(h['steps']))
+        if h.get('instantiate'):
+            tags.append('history:instantiate+reload')
+        sets = []
+        for _label, files, prim in history_steps(case):
+            if prim:
+                tags.append('history:primitive-step')
+                continue
+            e = expected(with_user_vars(case, files))
+            sets.append(json.dumps(e.get('nodes', e.get('error'))))
+            tags.append('history:step-expected:' + (e['error'] if 'error' in e else 'expansion'))
+        if len(set(sets)) > 1:
+            tags.append('history:steps-differ-in-expansion')
+        # a history is non-trivial when two of its replicated steps must give different expansions
+        nontrivial = len(set(sets)) > 1
+    return tags, nontrivial
 
 
 def parse_free(r):
@@ -788,16 +1210,55 @@ def parse_free(r):
 # checking
 # ----------------------------------------------------------------------------------------
 
-def canon_text(comps):
-    return sorted([[c['id'], c['refs'], c['args'], c['replica'], c['replicate'] if c['replica'] is not None else None]
-                   for c in comps], key=lambda x: (x[0], str(x)))
+def canon_text(comps, copies):
+    """`copies` = ids of the components that are copies (the model's view): `replicate` is compared for those only
+    (a component that is not expanded keeps whatever the document says)"""
+    res = []
+    for c in comps:
+        v = c.get('vars')
+        v = sorted([str(a), str(b)] for a, b in (v.items() if isinstance(v, dict) else (v or [])))
+        res.append([c['id'], c['refs'], c['args'], v, c['replicate'] if c['id'] in copies else None])
+    return sorted(res, key=lambda x: (x[0], str(x)))
 
 
-def check_cases(ctx, cases):
+def compare_history(ctx, case, out, mh):
+    """model of the configuration object (ReplConf) vs the real one, step by step, at the graph level"""
+    hist = out.get('history') or []
+    for k, (label, _files, prim) in enumerate(history_steps(case)):
+        if prim or k >= len(hist) or hist[k] is None or k >= len(mh['steps']) or mh['steps'][k] is None \
+                or 'skipped' in hist[k]:
+            continue
+        m, v = mh['steps'][k], hist[k]
+        rel = 'configuration after a history of parametrisations [%s]: ' % label
+        if 'error' in m:
+            if m['error'] != 'duplicate':
+                ctx.compare(rel + 'error kind == ReplConf.run', case, {'error': m['error']},
+                            {'error': v.get('error', 'accepted')})
+            continue
+        if 'error' in v:
+            ctx.compare(rel + 'verdict == ReplConf.run', case, 'loaded', {'error': v['error']})
+            continue
+        ctx.compare(rel + 'nodes == ReplConf.run', case, sorted(o['id'] for o in m['comps']), v['nodes'])
+        ctx.compare(rel + 'edges == Repl.edges of ReplConf.run', case, sorted(set(map(tuple, m['edges']))),
+                    sorted(set(map(tuple, v['edges']))))
+        ctx.compare(rel + 'replica / replicate of the copies == ReplConf.run', case,
+                    sorted([o['id'], str(o['replica']), o['replicate']] for o in m['comps'] if o['replica'] is not None),
+                    sorted([c['id'], str(c['replica']), c['replicate']] for c in v['comps']
+                           if c['id'] in {o['id'] for o in m['comps'] if o['replica'] is not None}))
+
+
+def check_cases(ctx, cases, keep=None):
     cases = [normalise(c) for c in cases]
     mouts = ctx.model([model_request(c) for c in cases])
+    hidx = [i for i, c in enumerate(cases) if c.get('history')]
+    hmouts = ctx.model([model_history_request(cases[i]) for i in hidx]) if (hidx and mouts is not None) else None
+    hm = dict(zip(hidx, hmouts)) if hmouts is not None else {}
     for idx, case in enumerate(cases):
         out = impl_run(case)
+        if keep is not None:
+            keep(case, out)
+        if idx in hm:
+            compare_history(ctx, case, out, hm[idx])
         tags, nontrivial = features(case)
         ctx.case(case, nontrivial=nontrivial, tags=tags + [
             'impl:' + ('graph-error:' + out['graph_error'].split(':')[0] if 'graph_error' in out else 'loaded')])
@@ -825,14 +1286,15 @@ def check_cases(ctx, cases):
         if 'replicate_error' in out:
             ctx.compare('replicated components == Repl.goText', case, 'ok', {'error': out['replicate_error']})
             continue
-        ctx.compare('replicated components (references, arguments, replica, replicate) == Repl.goText', case,
-                    canon_text(m['text']), canon_text(out['comps']))
+        copies = {o['id'] for o in m['text'] if o['replica'] is not None}
+        ctx.compare('replicated components (references, arguments, variables, replicate) == Repl.goText + '
+                    'ReplVars.goVars', case, canon_text(m['text'], copies), canon_text(out['comps'], copies))
         for r in out.get('runs', []):
             # the model's answer does not depend on the processing order (resolveAll_perm,
             # count_independent_of_siblings): the code must give it for every order
             ctx.compare('apply_replicate(components in a chosen processing order) == Repl.goText of '
-                        'ReplVars.resolveAll', case, canon_text(m['text']),
-                        canon_text(r['comps']) if 'comps' in r else {'error': r['error'], 'order': r['order']})
+                        'ReplVars.resolveAll', case, canon_text(m['text'], copies),
+                        canon_text(r['comps'], copies) if 'comps' in r else {'error': r['error'], 'order': r['order']})
         if 'graph_error' in out:
             ctx.compare('loader verdict == Repl.expand verdict', case, 'loaded', {'error': out['graph_error']})
         else:
@@ -864,7 +1326,10 @@ def shrink(what, case):
     def plain(c):
         c = copy.deepcopy(c)
         for x in c['comps']:
+            keep_rep = '%(replica)s' in x['args']
             x['args'] = ' '.join(render(r) for r in x['refs'] if not (r['comp'] and r['method'] == 'copyout'))
+            if keep_rep:
+                x['args'] = (x['args'] + ' rep=%(replica)s').strip()
         c['order'] = list(range(len(c['comps'])))
         c['orders'] = shrink_orders(len(c['comps']))
         return c
@@ -923,6 +1388,26 @@ def shrink(what, case):
                 cand['comps'][ci]['agg'] = True if is_agg(cur, cur['comps'][ci]) else None
                 if fails(cand):
                     cur, changed = cand, True
+    # a history: as few steps as possible, no instantiation
+    if cur.get('history'):
+        h = cur['history']
+        if h.get('instantiate'):
+            cand = copy.deepcopy(cur)
+            cand['history'].pop('instantiate')
+            if fails(cand):
+                cur = cand
+        k = 1
+        while k < len(cur['history']['steps']) - 1:
+            cand = copy.deepcopy(cur)
+            cand['history']['steps'].pop(k)
+            if fails(cand):
+                cur = cand
+            else:
+                k += 1
+        cand = copy.deepcopy(cur)
+        cand.pop('history')
+        if fails(cand):
+            cur = cand
     # keep only one failing processing order next to the topological one when a single order is enough
     for o in cur['orders']:
         cand = dict(copy.deepcopy(cur), orders=[o])
@@ -999,6 +1484,38 @@ CORPUS = [
     # a count variable that only a sibling defines is not visible to the component
     {'kind': 'corpus:count-variable-of-sibling-only', 'gvars': {}, 'svars': {},
      'comps': [K(0, 'S', vars={'k': 2}), K(0, 'A', [R(0, 'S')], n='k')]},
+    # components that define `replica` themselves (a default so that they resolve un-replicated; what a component
+    # exported by dsl_component_blueprint() carries), the stage and the global scope define it too: copy i sees i
+    {'kind': 'corpus:component-defines-replica', 'gvars': {'points': 3, 'replica': 9}, 'svars': {'0': {'replica': '8'}},
+     'comps': [K(0, 'sample', n='points', vars={'replica': 0}, args='rep=%(replica)s'),
+               K(0, 'analyse', [R(0, 'sample')], vars={'replica': '%(points)s'}, args='-i rep=%(replica)s sample:ref'),
+               K(0, 'plain', [R(0, 'sample')], args='rep=%(replica)s sample:ref'),
+               K(0, 'collect', [R(0, 'analyse'), R(0, 'plain')], agg=True, vars={'replica': 7},
+                 args='analyse:ref plain:ref rep=%(replica)s'),
+               K(0, 'other', vars={'replica': '5'}, args='rep=%(replica)s')]},
+    # the package is loaded, then the same configuration object is parametrised with points=4, points=5 and without
+    # user variables (WorkflowGraph.graphFromPackage on an already loaded package)
+    {'kind': 'corpus:reparametrised-package', 'gvars': {'points': 2}, 'svars': {},
+     'comps': [K(0, 'sample', n='points', args='rep=%(replica)s'),
+               K(1, 'analyse', [R(0, 'sample', long=True)]),
+               K(1, 'collect', [R(1, 'analyse')], agg=True)],
+     'history': {'entry': 'package', 'instantiate': True,
+                 'steps': [{'files': [], 'primitive': True},
+                           {'files': [{'global': {'points': 4}}], 'primitive': False},
+                           {'files': [{'global': {'points': 3}}, {'global': {'points': 5}}], 'primitive': False},
+                           {'files': [], 'primitive': False},
+                           {'files': [{'stages': {'0': {'points': 3}}}], 'primitive': False}]}},
+    # the same through the configuration object itself, a primitive parametrisation in between
+    {'kind': 'corpus:reparametrised-configuration', 'gvars': {'n': 2, 'doAggregate': 'no'}, 'svars': {'0': {'n': 3}},
+     'comps': [K(0, 'A', n='n'), K(0, 'B', [R(0, 'A')]),
+               K(1, 'D', [R(0, 'B', long=True)], agg={'var': 'doAggregate'}, vars={'doAggregate': 'yes'}),
+               K(1, 'E', [R(0, 'B', long=True)], agg={'var': 'doAggregate'})],
+     'history': {'entry': 'conf',
+                 'steps': [{'files': [{'global': {'n': 1}}], 'primitive': False},
+                           {'files': [{'global': {'n': 4}}], 'primitive': True},
+                           {'files': [{'stages': {'0': {'n': '2'}}, 'global': {'doAggregate': 'yes'}}],
+                            'primitive': False},
+                           {'files': [], 'primitive': False}]}},
 ]
 
 
@@ -1018,8 +1535,21 @@ def run(ctx):
                 "references with path suffixes and separators; the document lists the components in a random order and "
                 "FlowIR.apply_replicate is additionally driven with the components in explicit processing orders "
                 "(topological, reversed, two random shuffles: every pair of components in both relative orders). "
+                "In half of the cases variables called like the injected one are defined: `replica` by components for "
+                "themselves (inside and outside the replicated region, also as %(countvar)s), by stages and globally, "
+                "and `rep=%(replica)s` is put on the command lines; the graph is asked for the resolved variable and "
+                "command line of every node. kind 'history' (about 1 in 6): the document is written to a package "
+                "directory, loaded, and the SAME configuration object is re-parametrised 1-3 times (graphFromPackage "
+                "on the loaded package / conf.parametrize; primitive steps in between; sometimes instantiated with "
+                "experimentFromPackage and read back with graphFromExperimentInstanceDirectory) with user variable "
+                "files (0-2 per step, global and stage sections) that change the variables the counts / flags are "
+                "given through (counts 1-6, 11, 12); every step is compared with the expansion of the document "
+                "under the user variables of that step. A sample of 60 (quick) / 400 (thorough) cases + the corpus is "
+                "run again at the end in another order, and a third of them once more with all loggers enabled at "
+                "DEBUG level: identical answers required. "
                 "non-trivial = the expected expansion has at least one copy and at least one component whose "
-                "references are rewired; distinct by canonical JSON of the case.")
+                "references are rewired (history: two replicated steps of the history must give different "
+                "expansions); distinct by canonical JSON of the case.")
     ctx.assumptions = [
         "component names are non-empty ASCII words over [A-Za-z0-9_-], not one of the special folders; producers live "
         "in the consumer's stage or an earlier one; replica counts >= 1",
@@ -1030,6 +1560,11 @@ def run(ctx):
         "DoWhile placeholders (names with #) are not generated (C05)",
         "an attribute given through a variable is exactly `%(name)s`; variable values are integers / digit strings "
         "(counts) or booleans / true-yes-false-no spellings (flags) without nested %(..)s references",
+        "user variables (variable files) are layered over the variables the package gives each stage, the global "
+        "section first, then the section of the stage; variables a component defines itself stay on top (what "
+        "_patch_in_variable_files does; layering of several files is C15's subject)",
+        "a component-level variable whose value refers to another variable (replica: '%(n)s') is not compared in "
+        "components that are not copies (the configuration object hands it back resolved, the FlowIR as written)",
     ]
     ctx.trusted.append("C03: networkx.topological_sort (the model receives the components in a topological order "
                        "computed by the generator); FlowIRConcrete.instance() as the provider of the global/stage "
@@ -1038,14 +1573,75 @@ def run(ctx):
     quick = ctx.tier == 'quick'
     cases = [dict(c, order=list(range(len(c['comps']))), orders=shrink_orders(len(c['comps']))) for c in CORPUS]
     n = 700 if quick else 9000
-    for _ in range(n):
+    nh = 150 if quick else 1500
+    for i in range(n):
         cases.append(gen_case(rng))
+        if i * nh // n != (i + 1) * nh // n:       # the histories are spread over the run
+            hc = gen_history_case(rng)
+            if hc:
+                cases.append(hc)
+    # E: a sample of the cases is run again at the end (another order, after all the others), once with the same
+    # ambient settings and once with logging enabled
+    chosen = set(rng.sample(range(len(cases)), min(len(cases), 60 if quick else 400)))
+    chosen |= {i for i, c in enumerate(cases) if str(c.get('kind', '')).startswith('corpus:')}
+    first = {}
+    counter = [0]
+
+    def keep(case, out):
+        if counter[0] in chosen:
+            first[counter[0]] = (case, json.dumps(out, sort_keys=True, default=str))
+        counter[0] += 1
+
     B = 500
     for i in range(0, len(cases), B):
-        check_cases(ctx, cases[i:i + B])
+        check_cases(ctx, cases[i:i + B], keep=keep)
+    rerun(ctx, first)
+
+
+def rerun(ctx, first):
+    """family: process-level / class-level state shared between independent loads (caches keyed by names, class
+    attributes mutated in place) and ambient settings (logging level)"""
+    idxs = sorted(first)
+    ctx.rng.shuffle(idxs)
+    for mode in ('same-settings', 'logging-debug'):
+        for i in idxs:
+            case, before = first[i]
+            if mode == 'logging-debug' and i % 3:
+                continue
+            again = json.dumps(run_with_logging(case) if mode == 'logging-debug' else impl_run(case),
+                               sort_keys=True, default=str)
+            ctx.tag('rerun:' + mode)
+            if again != before:
+                a, b = json.loads(before), json.loads(again)
+                keys = sorted(k for k in set(a) | set(b) if a.get(k) != b.get(k))
+                ctx.fail('result-depends-on-earlier-cases' if mode == 'same-settings'
+                         else 'result-depends-on-logging-level', case,
+                         {'differs_in': keys, 'first': {k: a.get(k) for k in keys[:2]},
+                          'again': {k: b.get(k) for k in keys[:2]}, 'mode': mode})
+        idxs.reverse()
+
+
+def run_with_logging(case):
+    """impl_run with the loggers of the code under test enabled at DEBUG level (records are discarded)"""
+    real_disable = logging.disable
+    root = logging.getLogger()
+    level, handlers = root.level, list(root.handlers)
+    sink = logging.NullHandler()
+    try:
+        logging.disable = lambda *a, **k: None        # impl_run disables logging: not this time
+        real_disable(logging.NOTSET)
+        root.handlers = [sink]
+        root.setLevel(logging.DEBUG)
+        return impl_run(case)
+    finally:
+        logging.disable = real_disable
+        root.handlers = handlers
+        root.setLevel(level)
 
 
 def replay(ctx, doc):
     ctx.classifiers = CLASSIFIERS
     case = doc.get('input') or doc['no_longer_checks'][-1]['input']
-    check_cases(ctx, [case])
+    first = {}
+    check_cases(ctx, [case], keep=lambda c, o: first.update({0: (c, json.dumps(o, sort_keys=True, default=str))}))
+    rerun(ctx, first)
